@@ -440,6 +440,10 @@ func (tx *Transaction) Capturing() bool {
 // CaptureField is used to set the TX:[index] variables by operators
 // that supports capture, like @rx
 func (tx *Transaction) CaptureField(index int, value string) {
+	if index < 0 || index > 9 {
+		// only TX.0 to TX.9 are capture slots
+		return
+	}
 	if tx.Capture {
 		tx.debugLogger.Debug().
 			Int("field", index).
